@@ -113,6 +113,9 @@ class Intervals:
 
     def op(self, op):
         ty = (op.get("p") or {}).get("ty") if op["k"] in ("copy", "move") else op.get("ty")
+        if ty and ty.startswith("&"):
+            # a reference operand of a std operator impl (`&u8 - u8`): the value is the pointee
+            return meet(self.term(guards.canon(("deref", self.op_term(op)))), INT.get(re.sub(r"^&(mut )?", "", ty)))
         return meet(self.term(self.op_term(op)), INT.get(ty))
 
     def term_ty(self, t):
@@ -280,6 +283,8 @@ class Site:
         return self.b.loc(self.t)
 
 
+OP_CALL = re.compile(r"^<&?(u8|u16|u32|u64|u128|usize|i8|i16|i32|i64|i128|isize) as std::ops::"
+                     r"(Add|Sub|Mul|Neg|Shl|Shr|AddAssign|SubAssign|MulAssign|ShlAssign|ShrAssign)(?:<[^>]*>)?>::\w+$")
 SKIP_MACROS = ("Debug", "PartialEq", "Hash", "Clone", "PartialOrd", "Ord", "bitflags")
 
 
@@ -293,6 +298,19 @@ def sites(fx, select=None):
             if not b.reachable(bi):
                 continue
             t = blk["t"]
+            if t["k"] == "call":
+                # `a + b` with a reference operand (`&u32 + u32`, `u32 * &u32`, `x += &y`) is a call of the std operator impl, which
+                # inherits the caller's overflow checks: the same obligation as the checked MIR operation, without an assert terminator
+                m = OP_CALL.match(t["callee"].get("rpath") or "")
+                if m and len(t["args"]) in (1, 2) and not any(mm in SKIP_MACROS for mm in (t.get("macros") or [])):
+                    op = m.group(2)[:-len("Assign")] if m.group(2).endswith("Assign") else m.group(2)
+                    ty = m.group(1)
+                    if not (op in ("Add", "Mul") and ty in WIDE):
+                        t2 = dict(t)
+                        t2["ops"] = list(t["args"])
+                        t2["kind"] = "Overflow:" + op
+                        yield Site(b, bi, t2, op, ty)
+                continue
             if t["k"] != "assert":
                 continue
             kind = t["kind"]
